@@ -39,20 +39,22 @@ CHECKS["C24"] = {
 
 
 VM_FILES = ["vm/lib.go", "vm/corpus.go", "vm/corpus_wild_gen.go"]
-VM_GROUPS_Q = ["0[1-7]", "0[89]|1[0-4]", "1[5-9]|2[01]", "2[2-8]", "29|3[0-8]"]
+VM_GROUPS_Q = ["0[1-7]", "0[89]|1[0-4]", "1[5-9]|2[01]", "2[2-8]", "29|3[0-8]", "4[1-5]"]
 
 
 def vm_units(labels):
     us = []
     for g in VM_GROUPS_Q:
         us.append(unit("./internal/machine/vm", VM_FILES, f"^Harness_VM_(?:{g})_", QT, flags={"labels": labels}, reach=["end", "success-path"]))
+    # shapes every run of which is refused (amounts of another asset than the statement's): no success path to witness
+    us.append(unit("./internal/machine/vm", VM_FILES, "^Harness_VM_(?:39|40)_", QT, flags={"labels": labels}, reach=["end", "error-path"]))
     return us
 
 
 CHECKS["C22"] = {
     "level": "other",
     "explanation": "The real compiler produces each program of a corpus of program shapes; the real Machine (ResolveResources/ResolveBalances/Execute, Funding.Take/TakeMax/Concat, Allotment.Allocate) is executed symbolically with symbolic amounts, caps, overdraft limits, rational portions and account balances of any sign. z3 decides for every value: posting amounts >= 0, statement asset, sum of postings == sent amount (for 'send [A *]': the reference definition of available funds), 'kept' yields no posting, tracked balances == initial + postings.",
-    "bounds": {"quick": "38 program shapes (in-order/allotment/max sources and destinations, overdraft clauses, send-all, kept, save, balance() variable, multi-send, repeated accounts, two balance() variables on one account, a number variable handed over as JSON text, variables read from account metadata); all numeric inputs unbounded", "thorough": "same corpus"},
+    "bounds": {"quick": "45 program shapes (in-order/allotment/max sources and destinations, overdraft clauses, send-all, kept, save, balance() variable, multi-send, repeated accounts, two balance() variables on one account, a number variable handed over as JSON text, variables read from account metadata, caps / overdraft allowances in another asset); all numeric inputs unbounded", "thorough": "same corpus"},
     "outside": "programs outside the shape corpus; the ANTLR front end is run concretely (not symbolically); account names are concrete per shape",
     "assumptions": COMMON_ASSUME,
     "units": vm_units("^C22:"),
@@ -300,13 +302,13 @@ CHECKS["C29"] = {
 
 CHECKS["C27"] = {
     "level": "other",
-    "explanation": "Decided part of 'never crashes': (a) every program of the 38-shape corpus, compiled by the real compiler, is executed by the real Machine through vm.Run with ANY typed variable values (amounts and numbers of any sign, portions n/d with any n and any d != 0, so also above 100% and negative) and any balances: no reachable panic, a failed run returns no (partial) result, a successful one returns every posting, the program counter only moves forward (the loop terminates within the executor's step bound on every path). (b) machine.NewValueFromString — the door for variable JSON and account metadata — on a symbolic string for every variable type (account, asset, string, number, monetary, portion; regexes, SplitN, big.Rat.SetString and FindStringSubmatch are encoded over SMT strings): no panic, an error carries no value, an accepted portion lies in [0,1]. Number variables are additionally read from every kind of JSON literal (null, booleans, strings, fractions, arrays, ...) both directly and through SetVarsFromJSON + ResolveResources, and an accepted value must have the requested type.",
-    "bounds": {"quick": "38 program shapes; all numeric values unbounded; value strings of <= 6 bytes (portion <= 5, monetary 4+1+3)", "thorough": "same"},
+    "explanation": "Decided part of 'never crashes': (a) every program of the 45-shape corpus, compiled by the real compiler, is executed by the real Machine through vm.Run with ANY typed variable values (amounts and numbers of any sign, portions n/d with any n and any d != 0, so also above 100% and negative) and any balances: no reachable panic, a failed run returns no (partial) result, a successful one returns every posting, the program counter only moves forward (the loop terminates within the executor's step bound on every path). (b) machine.NewValueFromString — the door for variable JSON and account metadata — on a symbolic string for every variable type (account, asset, string, number, monetary, portion; regexes, SplitN, big.Rat.SetString and FindStringSubmatch are encoded over SMT strings): no panic, an error carries no value, an accepted portion lies in [0,1]. Number variables are additionally read from every kind of JSON literal (null, booleans, strings, fractions, arrays, ...) both directly and through SetVarsFromJSON + ResolveResources, and an accepted value must have the requested type.",
+    "bounds": {"quick": "45 program shapes; all numeric values unbounded; value strings of <= 6 bytes (portion <= 5, monetary 4+1+3)", "thorough": "same"},
     "outside": "'compiling any byte string': the ANTLR ATN simulator and the generated parser cannot be executed on symbolic bytes within reach — compilation of arbitrary text is NOT decided; programs outside the corpus; SetVarsFromJSON's JSON layer",
     "assumptions": COMMON_ASSUME + ["FindStringSubmatch on a symbolic subject returns some decomposition of the subject along the pattern (Go's leftmost-first choice when it is unique, as for the repo's patterns)"],
     "units": [
         unit("./internal/machine/vm", VM_FILES, "^Harness_VMW_(0|1[0-6])", QT, flags={"labels": "^(C27:|no-panic)"}, reach=["end"]),
-        unit("./internal/machine/vm", VM_FILES, "^Harness_VMW_(1[7-9]|2|3)", QT, flags={"labels": "^(C27:|no-panic)"}, reach=["end"]),
+        unit("./internal/machine/vm", VM_FILES, "^Harness_VMW_(1[7-9]|2|3|4)", QT, flags={"labels": "^(C27:|no-panic)"}, reach=["end"]),
         unit("./internal/machine", ["machine/c27.go"], "^Harness_C27_", QT, flags={"labels": "^(C27:|no-panic)"}, reach=["end"]),
     ],
 }
